@@ -277,7 +277,9 @@ class C06Engine(Engine):
             'type (struct, union, alias, enumerated-subtype base), a valid value, a sender (real encoder; '
             'foreign-dialect reference encoder: explicit nulls, bare-string void tags, integer literals for '
             'floats, permuted keys; lossy link with 1-2 structural faults at any nesting depth or byte-level '
-            'damage of the JSON text; garbage sender), a receiver mode (strict/lenient) and an entry point '
+            'damage of the JSON text; garbage sender; deep sender: a valid document of a recursive type nested '
+            '10-2000 turns deep, or 300-150000 brackets of nesting around a document), a receiver mode '
+            '(strict/lenient) and an entry point '
             '(json_decode / json_compat_obj_decode). A reference decoder written from the two docs classifies '
             'the parsed document accept / reject / unspecified. Distinct = (sender kind, fault kind, mode, '
             'entry point, top-level type kind, reference verdict, outcome); undamaged real-encoder deliveries '
@@ -288,7 +290,8 @@ class C06Engine(Engine):
     stub_components = ['links (foreign dialect, lossy, garbage senders)', 'node scheduling',
                        'reference codec written from docs/json_serializer.rst and docs/evolve_spec.rst']
     assumptions = ['annotations (Omitted callers, redaction) are switched off in fleet specs',
-                   'aliases to nullable types are not generated (python_types treats such fields as required)',
+                   'deep valid documents are judged for the kind of failure only: a refusal is the open known '
+                   'finding C06 deep-nesting, a foreign exception is a violation',
                    'unspecified documents are judged only for "no foreign exception" and "accepted values are valid"']
     expected_probes = ['must_accept', 'must_reject', 'unspecified', 'dialect_delivery', 'byte_damage_not_json',
                        'byte_damage_still_json', 'garbage_delivery', 'strict_rejection', 'lenient_unknown_ignored',
